@@ -308,6 +308,48 @@ def checks(maxlen, part, nparts):
   return r
 
 
+_P33 = None
+
+
+def _primes33():
+  global _P33
+  if _P33 is None:
+    _P33 = [nt.rand_prime('c03-p33-%d' % i, 33) for i in range(140)]
+    assert len(set(_P33)) == len(_P33)
+  return _P33
+
+
+def check_shapes(n_lo, n_hi):
+  """CheckGCD on batches of N >= 64-bit moduli with every placement of a shared prime /
+  duplicate (the protobuf path: bytes -> mpz -> BatchGCD -> entries and factor records)."""
+  r = Result()
+  Q = _primes33()
+  for n in range(n_lo, n_hi + 1):
+    base = [Q[2 * k] * Q[2 * k + 1] for k in range(n)]
+    variants = [base]
+    for i in range(n):
+      for j in range(i + 1, n):
+        v = list(base)
+        v[j] = Q[2 * i] * Q[2 * j + 1]
+        variants.append(v)
+        if (i + j) % 5 == 0:
+          v = list(base)
+          v[j] = base[i]
+          variants.append(v)
+    for v in variants:
+      bad = case_check_gcd(v)
+      flagged = len(set(v)) < len(v) or v != base
+      r.ev('check-shape/%s' % ('flag' if v != base and len(set(v)) == len(v) else 'clean'),
+           v != base)
+      for b in bad[:1]:
+        r.violation(b, {'fn': 'check_gcd', 'args': {'ns': v}})
+    if len(r.violations) > 10:
+      break
+  r.sample({'CheckGCD_batch_sizes': [n_lo, n_hi], 'placements': 'every (i,j) shared prime, every '
+            '5th duplicate'})
+  return r
+
+
 CASES = {
     'batchgcd': case_batchgcd,
     'trees': case_trees,
@@ -354,4 +396,11 @@ def plan(tier, seed):
                       bound='every ordered batch of size 0..%d over 7 moduli '
                       '(CheckGCD) / 0..3 over 8 moduli x 6 bounds (CheckGCDN1)' %
                       (4 if thorough else 3), weight=3e4))
+  top = 64 if thorough else 40
+  edges = [0, 16, 24, 30, 35, 40] + ([46, 52, 58, 64] if thorough else [])
+  for lo, hi in zip(edges, edges[1:]):
+    tasks.append(Task('check-level-shapes', 'check_shapes', {'n_lo': lo + (1 if lo else 0),
+                                                             'n_hi': hi},
+                      bound='CheckGCD on every batch size 0..%d of >= 64-bit moduli x every '
+                      'placement of a shared prime' % top, weight=hi**3 * 30))
   return tasks
